@@ -87,7 +87,8 @@ func genConc(seed uint64, prop string) *Scenario {
 			}
 		}
 		if r.IntN(3) == 0 {
-			sc.Steps = append(sc.Steps, Step{T: "s-leave", Sess: s, A: r.IntN(2)})
+			// A: 0 half-close, 1 cancel, 2 connection reset; B: 1 = go away at once, without reading what is there
+			sc.Steps = append(sc.Steps, Step{T: "s-leave", Sess: s, A: r.IntN(3), B: r.IntN(2)})
 		}
 	}
 	for i := 0; i < r.IntN(3); i++ {
@@ -97,7 +98,12 @@ func genConc(seed uint64, prop string) *Scenario {
 		} else {
 			gs.NI = g.ni()
 		}
-		sc.Steps = append(sc.Steps, Step{T: "reader", Sess: 100 + i, Get: gs, A: 1 + r.IntN(3)})
+		rd := Step{T: "reader", Sess: 100 + i, Get: gs, A: 1 + r.IntN(3)}
+		if r.IntN(3) == 0 {
+			// the reader walks away from its Get streams after B-1 responses
+			rd.B, rd.Note = 1+r.IntN(4), getModes[r.IntN(3)]
+		}
+		sc.Steps = append(sc.Steps, rd)
 	}
 	if os.Getenv("VERIF_NI_ADDER") != "" && r.IntN(4) == 0 {
 		// The embedding device adds network instances at run time (Server.AddNetworkInstance). C11
@@ -193,18 +199,25 @@ func runConc(e *env) {
 					s.mc.Send(&spb.ModifyRequest{ElectionId: uint128(id)})
 				case "s-leave":
 					// read what is there, then go away while the others carry on
-					simrt.Sleep("leave-delay", 20*time.Millisecond)
-					for {
-						r, err, ok := s.mc.TryRecv()
-						if !ok || err != nil {
-							break
+					if st.B == 0 {
+						simrt.Sleep("leave-delay", 20*time.Millisecond)
+						for {
+							r, err, ok := s.mc.TryRecv()
+							if !ok || err != nil {
+								break
+							}
+							s.pendingResp = append(s.pendingResp, r)
 						}
-						s.pendingResp = append(s.pendingResp, r)
 					}
-					if st.A == 0 {
+					switch st.A {
+					case 0:
 						s.mc.CloseSend()
-					} else {
+					case 1:
 						s.mc.Stream().Cancel()
+						s.dead = true
+					default:
+						e.sim.Fault("conn-reset")
+						s.mc.Stream().Reset()
 						s.dead = true
 					}
 					s.closed = true
@@ -255,8 +268,27 @@ func runConc(e *env) {
 					req.NetworkInstance = &spb.GetRequest_Name{Name: st.Get.NI}
 				}
 				gc := e.net.OpenGet(req)
+				nresp := 0
 				for {
+					if st.B > 0 && nresp >= st.B-1 {
+						// walk away from the stream; the other RPCs must not notice
+						if !gc.Stream().Dead() {
+							e.probe("concurrent Get abandoned before its end")
+						}
+						switch st.Note {
+						case "cancel":
+							gc.Stream().Cancel()
+						case "reset":
+							gc.Stream().Reset()
+						default:
+							e.sim.Fault("stall")
+							simrt.Yield("reader-stall", 30)
+							gc.Stream().Cancel()
+						}
+						break
+					}
 					r, err := gc.RecvTimeout(10 * time.Minute)
+					nresp++
 					if err != nil {
 						if err.Error() != "EOF" {
 							problems = append(problems, fmt.Sprintf("reader: Get ended with %v", err))
@@ -280,7 +312,9 @@ func runConc(e *env) {
 						}
 					}
 				}
-				e.probe("concurrent Get completed")
+				if st.B == 0 {
+					e.probe("concurrent Get completed")
+				}
 			}
 		})
 	}
@@ -434,29 +468,28 @@ func runConc(e *env) {
 			}
 		}
 	})
-	if flushRan {
+	switch {
+	case flushRan:
 		e.probe("a Flush overlapped the modifications")
-		return
-	}
-	if cancelled {
+	case cancelled:
 		e.probe("state comparison skipped: a session was cancelled with operations in flight")
-		return
-	}
-	if foreign {
+	case foreign:
 		// (known finding) a held operation was answered on another stream: the per-stream
 		// acknowledgement order no longer determines the order of installation.
 		e.probe("state comparison skipped: results crossed streams")
-		return
+	default:
+		// no Flush overlapped: installed entries are exactly the acknowledged ones.
+		// Key spaces are disjoint, so the sessions' acknowledgement streams can be replayed one after the other.
+		e.probe("concurrent run without Flush: full state comparison")
+		e.propOverride = "C11"
+		for _, sn := range order {
+			s := plans[sn].s
+			e.processResultsConc(s, s.pendingResp)
+		}
+		e.checkpoint(func() { e.afterQuiescenceChecks(nil) })
+		e.propOverride = ""
 	}
-	// no Flush overlapped: installed entries are exactly the acknowledged ones.
-	// Key spaces are disjoint, so the sessions' acknowledgement streams can be replayed one after the other.
-	e.probe("concurrent run without Flush: full state comparison")
-	e.propOverride = "C11"
-	for _, sn := range order {
-		s := plans[sn].s
-		e.processResultsConc(s, s.pendingResp)
-	}
-	e.checkpoint(func() { e.afterQuiescenceChecks(nil) })
+	e.serviceProbe("C11", "after the concurrent run")
 }
 
 // processResultsConc replays one session's results; operations rejected because the
